@@ -238,7 +238,7 @@ Proof.
   destruct duals as [|d duals]; [reflexivity|].
   cbn [ad_sweep_opt].
   set (t := ad_prox o _). set (x1 := vsub x _).
-  specialize (IH duals (setnth (ad_key o) (ad_prox o (vadd d (vscal (stepsize * ad_inner o)%num (ad_L o x)))) tmps) x1).
+  specialize (IH duals (setnth (ad_key o) (ad_prox o (ad_arg stepsize o d x)) tmps) x1).
   fold t in IH.
   destruct (ad_sweep_opt stepsize ops duals (setnth (ad_key o) t tmps) x1) as [[[xo dso] tmo] tro].
   rewrite IH. apply setnth_length.
